@@ -232,6 +232,31 @@ def dual_unital_tp_truth(p):
 
 # ------------------------------------------------------------------------------------------ complementary channel
 def _tp_family(p):
+    """square Kraus operators K_1..K_r with sum K^dagger K = I, by construction (optionally stored Fortran-ordered or as strided views)"""
+    import numpy as np
+
+    K = _tp_family_c(p)
+    lay = p.get("layout")
+    if lay == "F":
+        return [np.asfortranarray(k) for k in K]
+    if lay == "view":
+        out = []
+        for k in K:
+            big = np.zeros((2 * k.shape[0], 2 * k.shape[1]), dtype=k.dtype)
+            big[::2, ::2] = k
+            out.append(big[::2, ::2])
+        return out
+    if lay == "dagger-view":  # K given as the conjugate-transpose view of a stored array (what dual_channel returns)
+        return [np.ascontiguousarray(k.conj().T).conj().T for k in K]
+    return K
+
+
+def _as_given(K):
+    """fresh arrays with the memory layout of the originals (a plain .copy() would make everything C-ordered); strided views are passed as they are"""
+    return [k.copy(order="K") if (k.flags.c_contiguous or k.flags.f_contiguous) else k for k in K]
+
+
+def _tp_family_c(p):
     """square Kraus operators K_1..K_r with sum K^dagger K = I, by construction"""
     import numpy as np
 
@@ -293,7 +318,7 @@ def comp_entry(p):
 
     K = _tp_family(p)
     d, r = K[0].shape[0], len(K)
-    C = complementary_channel([k.copy() for k in K])
+    C = complementary_channel(_as_given(K))
     if not isinstance(C, list) or len(C) != d:
         raise Violation("complementary_channel returned %d operators for dimension %d (one per row is documented)" % (len(C) if isinstance(C, list) else -1, d))
     for c in C:
@@ -335,7 +360,7 @@ def comp_trace(p):
 
     K = _tp_family(p)
     d = K[0].shape[0]
-    C = [np.asarray(c) for c in complementary_channel([k.copy() for k in K])]
+    C = [np.asarray(c) for c in complementary_channel(_as_given(K))]
     U.close(sum(c.conj().T @ c for c in C), np.eye(d), "sum C_k^dagger C_k", 1e-9)
     rng = np.random.default_rng(p.get("seed", 0) + 3)
     X = U.rnd(rng, (d, d), "complex")
@@ -352,7 +377,7 @@ def comp_spectrum(p):
 
     K = _tp_family(p)
     d, r = K[0].shape[0], len(K)
-    C = [np.asarray(c) for c in complementary_channel([k.copy() for k in K])]
+    C = [np.asarray(c) for c in complementary_channel(_as_given(K))]
     rng = np.random.default_rng(p.get("seed", 0) + 11)
     for t in range(3):
         psi = U.rnd(rng, (d, 1), "complex")
@@ -533,6 +558,10 @@ def cases(tier, seed):
         add("comp.entry", dict(d=d, r=1, cons="unitary", entries="complex", seed=seed), "complementary_channel/unitary", d > 1)
         add("comp.spectrum", dict(d=d, r=1, cons="unitary", seed=seed), "complementary_channel/unitary", d > 1)
     add("comp.entry", dict(d=2, r=4, cons="pauli-dyadic", entries="sym", seed=seed), "complementary_channel/dyadic/symbolic-rho")
+    for d in (2, 3):
+        for lay in ("F", "view", "dagger-view"):
+            for cl in ("comp.entry", "comp.trace", "comp.spectrum"):
+                add(cl, dict(d=d, r=2, cons="stinespring", entries="complex", field="complex", seed=seed, layout=lay), "complementary_channel/memory-layout-%s" % lay)
     for d in (2, 3):
         for r in (2, 3):
             for cl in ("comp.entry", "comp.trace", "comp.spectrum"):
